@@ -157,6 +157,9 @@ def run(ctx: common.Ctx):
     judge(ctx, res, 'nested-in-splicing')
     # the same circRNA record in two GVF files: entry strings unique in the whole FASTA
     cv_checks.circ_dup_stream(ctx, ctx.n(60, 800))
+    # small records on a fusion donor (main graph and fusion graph of one transcript number their
+    # entries): entry strings unique
+    cv_checks.fusion_pairs(ctx, ctx.n(36, 400), unique_entries=True, metamorphic=False)
     ctx.coverage['worker_stats'] = {'trypsin-noexc': s1, 'lookahead-enzymes': s2, 'special-codons': s3,
                                     'w2f-tryptophan-clusters': s4, 'synonymous-pair-in-one-codon': s5,
                                     'nested-in-splicing': ctx.coverage['worker_stats']}
